@@ -165,9 +165,10 @@ CHECKS["C18"] = dict(level="model_checking", ref="DESIGN.md 5 C18",
          "nothing never-live, nothing twice, no handle issued twice, own-object results exact, every call returns, final "
          "token content exact. 8- and 16-thread free-running runs with OS locking are validated the same way. The state threads SHARE (login state, last-session logout, user PIN, private objects under construction) is specified in ConcTok.tla as a linearizability checker with silent effect steps; for its programs the calls take interleaving-dependent paths, so besides the TLC schedules every two-preemption schedule counted in points of the execution itself is run.",
     note="Trusted: TLC, vf/drv_conc.py (scheduler in the callbacks). File backend as the property states. Code that shares "
-         "state without a mutex is reached only by the free-running part. Three known findings (object visible before its "
+         "state without a mutex is reached only by the free-running part. Seven known findings (object visible before its "
          "creation completed; torn read of a token object under concurrent searches; C_Logout not atomic with respect to "
-         "the creation of private objects) are accepted only in the scoped "
+         "the creation of private objects; a second transaction on an object refused as busy; dirty reads of an open "
+         "transaction; a roll-back overlapping a commit tears the object file) are accepted only in the scoped "
          "situations ConcLin names and printed as KNOWN-FINDING after the model without the deviation rejects an example.")
 VALTECH = ("TLA+ specification of values as terms (P11Val) + TLC exhaustive state graphs + replay of every transition on "
            "the library + independent reference implementation written out from the standards (vf/refcrypto.py) + TLC trace "
